@@ -4,3 +4,8 @@ add("C16", "hdmc/inputmc", "model_checking",
     "Bounded-exhaustive: every address list up to length 8 (thorough 10) over a 4-address alphabet with duplicates, all three preferences, port rewrite, is run through the crate's own sort routine and compared with a reference written from the statement; the space below the bound is enumerated completely.",
     "Reference model is the harness's reading of the statement; 'attempts start in that order' is by composition with C11 (queue order = start order) and a supplementary real-socket run through connect_to_addrs.",
     "bounded-exhaustive input enumeration vs reference model", "DESIGN.md §5, §8 C16")
+
+add("C20", "hdmc/inputmc", "model_checking",
+    "Complete grid (version x Host header forms x URI authority forms x SNI present/absent/case/different) through the public ValidateSNI layer around a recording service, compared with a reference predicate written from the statement (named host, case-insensitive, port ignored, validated mark seen by the inner service).",
+    "Host/SNI values are a finite menu of syntactically valid forms; cases that name no host are don't-care. TlsConnectionInfo is injected as a request extension (its fields are public), not produced by a real handshake.",
+    "bounded-exhaustive input enumeration vs reference model", "DESIGN.md §5, §8 C20")
